@@ -4,7 +4,9 @@ import (
 	"bytes"
 	"encoding/hex"
 	"fmt"
+	"os"
 	"strings"
+	"time"
 
 	bh "github.com/bfenetworks/bfe/bfe_http2/hpack"
 	xh "golang.org/x/net/http2/hpack"
@@ -108,8 +110,9 @@ func c30Probe(d *bh.Decoder, sink *[]hpackx.Field) (n int, size uint64) {
 	return
 }
 
-// c30Run drives one direction. enc is "bfe" or "xnet".
-func c30Run(r *vkit.Run, c *c30Case, encKind string) (nontrivial bool) {
+// c30Run drives one direction. enc is "bfe" or "xnet". obs (may be nil) is told
+// every integer the RFC model parses out of the stream bfe's encoder emitted.
+func c30Run(r *vkit.Run, c *c30Case, encKind string, obs func(site string, prefix uint8, v uint64)) (nontrivial bool) {
 	var buf bytes.Buffer
 	var bEnc *bh.Encoder
 	var xEnc *xh.Encoder
@@ -129,6 +132,9 @@ func c30Run(r *vkit.Run, c *c30Case, encKind string) (nontrivial bool) {
 	xAlive := encKind == "bfe" // x/net's decoder only observes the bfe encoder
 	ref := hpackx.NewDecoder(4096)
 	ref.Strict = true
+	if encKind == "bfe" {
+		ref.IntHook = obs
+	}
 	S := uint32(4096)
 	wit := func(extra map[string]interface{}) map[string]interface{} {
 		m := map[string]interface{}{"case": c, "encoder": encKind, "negotiated_max": S}
@@ -188,7 +194,7 @@ func c30Run(r *vkit.Run, c *c30Case, encKind string) (nontrivial bool) {
 
 		// x/net's decoder rule for size updates (see hpackx.Decoder.XNetRule): predict it
 		xq := ref.Clone() // state before the block; only decoded if x/net rejects
-		xq.Strict, xq.XNetRule = false, true
+		xq.Strict, xq.XNetRule, xq.IntHook = false, true, nil
 
 		// (a) the RFC model on the emitted stream
 		updBefore, evBefore, refsBefore := ref.Updates, ref.Evicted, ref.DynRefs
@@ -283,10 +289,10 @@ func c30Run(r *vkit.Run, c *c30Case, encKind string) (nontrivial bool) {
 
 func c30Check(r *vkit.Run, c *c30Case) {
 	nt := false
-	if r.Try(func() interface{} { return c }, func() { nt = c30Run(r, c, "bfe") }) {
+	if r.Try(func() interface{} { return c }, func() { nt = c30Run(r, c, "bfe", c30bObserve) }) {
 		return
 	}
-	if r.Try(func() interface{} { return c }, func() { c30Run(r, c, "xnet") }) {
+	if r.Try(func() interface{} { return c }, func() { c30Run(r, c, "xnet", nil) }) {
 		return
 	}
 	var sb strings.Builder
@@ -367,7 +373,7 @@ func c30Generate(r *vkit.Run, i int) *c30Case {
 }
 
 func c30(r *vkit.Run) {
-	r.SetRule("case = 1-40 header blocks of 1-8 fields drawn from a per-sequence universe of 2-6 names x 5-10 values (incl. values sized so that an entry is T-1/T/T+1 octets for a focus size T in 33..65536, Huffman-friendly and -unfriendly octets, 1/6 never-indexed, 1/10 static-table pairs), interleaved (1/3 of the gaps) with 1-2 announcements of a new SETTINGS_HEADER_TABLE_SIZE in {0,1,32,33,34,T-1,T,T+1,2T,100,256,4096,4097,65536} applied as an HTTP/2 endpoint does (Encoder.SetMaxDynamicTableSize + Decoder.SetAllowedMaxDynamicTableSize) and (1/12) Encoder.SetMaxDynamicTableSizeLimit. Each sequence runs bfe-encoder -> {bfe decoder, x/net decoder, RFC 7541 model} and x/net-encoder -> {bfe decoder, model}; after every block: decoded (name,value,never-index) == encoded; size of the table implied by the emitted stream (model) and of bfe's decoder table (read back by decoding indexes 62..) <= negotiated maximum. x/net's decoder is dropped for the rest of a sequence when its own non-RFC rule (second size update with non-empty table) rejects the block. Non-trivial = >= 2 blocks and the stream contained >= 1 eviction and >= 1 dynamic-table reference; distinct = the op list")
+	r.SetRule("case = 1-40 header blocks of 1-8 fields drawn from a per-sequence universe of 2-6 names x 5-10 values (incl. values sized so that an entry is T-1/T/T+1 octets for a focus size T in 33..65536, Huffman-friendly and -unfriendly octets, 1/6 never-indexed, 1/10 static-table pairs), interleaved (1/3 of the gaps) with 1-2 announcements of a new SETTINGS_HEADER_TABLE_SIZE in {0,1,32,33,34,T-1,T,T+1,2T,100,256,4096,4097,65536} applied as an HTTP/2 endpoint does (Encoder.SetMaxDynamicTableSize + Decoder.SetAllowedMaxDynamicTableSize) and (1/12) Encoder.SetMaxDynamicTableSizeLimit. Each sequence runs bfe-encoder -> {bfe decoder, x/net decoder, RFC 7541 model} and x/net-encoder -> {bfe decoder, model}; after every block: decoded (name,value,never-index) == encoded; size of the table implied by the emitted stream (model) and of bfe's decoder table (read back by decoding indexes 62..) <= negotiated maximum. x/net's decoder is dropped for the rest of a sequence when its own non-RFC rule (second size update with non-empty table) rejects the block. Non-trivial = >= 2 blocks and the stream contained >= 1 eviction and >= 1 dynamic-table reference; distinct = the op list." + c30bRule)
 	r.Assume("golang.org/x/net/http2/hpack v0.0.0-20201021035429 as independent encoder/decoder; ref/hpackx as RFC 7541 model of the table implied by a stream")
 	if r.Replay != "" {
 		var w struct {
@@ -379,12 +385,18 @@ func c30(r *vkit.Run) {
 		}
 		c30Check(r, &w.Case)
 		c30C.flush(r)
+		c30bFinish(r, true)
 		r.SetMinDistinct(0)
 		return
 	}
+	t0 := time.Now()
+	c30b(r) // boundary-directed histories (c30b.go)
+	r.Extra("c30_directed_part_wall_s", time.Since(t0).Seconds())
+	fmt.Fprintf(os.Stderr, "c30: directed part %.1fs\n", time.Since(t0).Seconds())
 	n := r.N(20000, 1000000)
 	vkit.Parallel(n, 0, func(i int) { c30Check(r, c30Generate(r, i)) })
 	c30C.flush(r)
+	c30bFinish(r, false)
 	for _, k := range []string{"evictions_bfe-enc", "dynamic_refs_bfe-enc", "size_updates_in_stream_bfe-enc", "table_exactly_full_bfe-enc",
 		"evictions_xnet-enc", "dynamic_refs_xnet-enc", "probed_entries", "xnet_decoder_blocks_agree"} {
 		if c30C.get(k) == 0 {
